@@ -94,8 +94,11 @@ def ApOK (l : Locale) : Prop := l.ok = true → '/' ∈ l.apFmt
 /-- `strconv.Itoa(year)` has at least the two characters `[2:]` needs -/
 def YearOK (t : TimeF) : Prop := 2 ≤ (itoaInt t.year).length
 
+/-- the nested renderings through Options.LongDatePattern / LongTimePattern did not panic -/
+def NestedOK (d : DateIn) : Prop := d.sysDate ≠ some .panic ∧ d.sysTime ≠ some .panic
+
 def DateOK (d : DateIn) : Prop :=
-  YearOK d.t0 ∧ YearOK d.t1 ∧ ∀ c, ApOK (d.loc0 c) ∧ ApOK (d.loc1 c)
+  YearOK d.t0 ∧ YearOK d.t1 ∧ (∀ c, ApOK (d.loc0 c) ∧ ApOK (d.loc1 c)) ∧ NestedOK d
 
 theorem apParts_len (loc : Locale) (v : Str) (hl : ApOK loc) (hv : '/' ∈ v) :
     2 ≤ (apParts loc v).length := by
@@ -203,7 +206,7 @@ theorem dateTimesHandler_ne_panic (items : List Tok) (i : Nat) (t : Tok) (tm : T
         · simp
 
 theorem dtLoop_ne_panic (items : List Tok) (value : Str) (tm : TimeF) (loc : Str → Locale) (d : DateIn)
-    (hy : YearOK tm) (hl : ∀ c, ApOK (loc c)) :
+    (hy : YearOK tm) (hl : ∀ c, ApOK (loc c)) (hn : NestedOK d) :
     ∀ (l : List (Nat × Tok)) (st : DtSt), dtLoop items value tm loc d l st ≠ .panic := by
   intro l
   induction l with
@@ -213,9 +216,14 @@ theorem dtLoop_ne_panic (items : List Tok) (value : Str) (tm : TimeF) (loc : Str
     obtain ⟨i, t⟩ := p
     unfold dtLoop
     split
-    · dsimp only
-      split
+    · split
       · simp
+      · cases hsd : d.sysDate with
+        | none => simp
+        | some o => simp only [Option.getD_some]; intro h; exact hn.1 (by rw [hsd, h])
+      · cases hsd : d.sysTime with
+        | none => simp
+        | some o => simp only [Option.getD_some]; intro h; exact hn.2 (by rw [hsd, h])
       · exact ih _
     · split
       · have := dateTimesHandler_ne_panic items i t tm (loc st.localCode) d st hy (hl _)
@@ -237,12 +245,12 @@ theorem dtLoop_ne_panic (items : List Tok) (value : Str) (tm : TimeF) (loc : Str
 
 theorem dateTimeHandler_ne_panic (items : List Tok) (value : Str) (ms : Bool) (d : DateIn) (h : DateOK d) :
     dateTimeHandler items value ms d ≠ .panic := by
-  obtain ⟨h0, h1, hl⟩ := h
+  obtain ⟨h0, h1, hl, hn⟩ := h
   unfold dateTimeHandler
   dsimp only
   split
-  · exact dtLoop_ne_panic _ _ _ _ _ h1 (fun c => (hl c).2) _ _
-  · exact dtLoop_ne_panic _ _ _ _ _ h0 (fun c => (hl c).1) _ _
+  · exact dtLoop_ne_panic _ _ _ _ _ h1 (fun c => (hl c).2) hn _ _
+  · exact dtLoop_ne_panic _ _ _ _ _ h0 (fun c => (hl c).1) hn _ _
 
 theorem positiveLoop_ne_panic (items : List Tok) (value : Str) (up : Bool) (n : NumIn) (d : DateIn) (h : DateOK d) :
     ∀ (ts : List Tok) (fmtNum : Bool), positiveLoop items value up n d ts fmtNum ≠ .panic := by
